@@ -242,6 +242,9 @@ def _r12h(rep):
     _r12k(rep)
     from rules import shared_readonly
 
+    from rules import shared_viewupdate
+
+    shared_viewupdate.run(rep, "R12m", ["phonopy/harmonic/derivative_dynmat.py", "phonopy/phonon/group_velocity.py", "phonopy/gruneisen/core.py", "phonopy/gruneisen/mesh.py", "phonopy/gruneisen/band_structure.py"])
     shared_readonly.run(rep, "R12l", ["phonopy/gruneisen/band_structure.py", "phonopy/gruneisen/mesh.py", "phonopy/gruneisen/core.py", "phonopy/phonon/group_velocity.py"], 5)
     # what the average accumulates, entry by entry (any spelling): row b of the addend is R_cart gv[b]
     from engine import symnp
